@@ -1007,11 +1007,14 @@ def atom_name(k):
     return "%s" % (k[1],)
 
 
-def analyse_fit_predict(ctx, repo, flow, roles):
+FIT_FLAGS = {"fitted": (None, "overwrite_fitted_strategies")}
+
+
+def analyse_fit_predict(ctx, repo, flow, roles, method="fit_predict", FLAGS=FLAGS, registry=True):
     cls = repo.cls(ORCH + ":Orchestrator")
-    cons = Consumer(repo, cls, "fit_predict", roles)
+    cons = Consumer(repo, cls, method, roles)
     fn, g, mod = cons.fn, cons.cfg, cons.mod
-    tag = "Orchestrator.fit_predict"
+    tag = "Orchestrator." + method
     if cons.loop is None:
         for r in ("R1", "R2", "R5"):
             ctx.undecided(r, tag + ":loop", "no loop over self._iter() found", ctx.loc(mod, fn))
@@ -1210,7 +1213,11 @@ def analyse_fit_predict(ctx, repo, flow, roles):
 
     # R1: the fold is skipped (not fitted) exactly when nothing is to be written ------------------
     if not fits:
-        ctx.undecided("R1", tag + ":fit", "no strategy.fit(...) call on the yielded strategy in the loop", ctx.loc(mod, cons.loop))
+        # decidable: something is stored (or predicted) for a strategy that this iteration never fits
+        anyfit = [c for c in astq.calls(fn) if isinstance(c.func, ast.Attribute) and c.func.attr == "fit"]
+        ctx.check(None if anyfit else False, "R1", tag + ":fit", "",
+                  "the loop stores records but never calls fit on the strategy yielded for the fold" if not anyfit else
+                  "fit is called, but not on the strategy yielded for the fold", ctx.loc(mod, cons.loop))
     elif set(need) == set(FLAGS):
         anyneed = P.Or(*need.values())
         fit_ids = {n.id for _, n in fits}
@@ -1241,6 +1248,25 @@ def analyse_fit_predict(ctx, repo, flow, roles):
         report("R2", "%s:store[%s]:produced" % (tag, kind), miss,
                "executed whenever the record is requested and (missing or %s)" % ow,
                "the %s record is requested and missing (or %s is on) but is not written" % (kind, ow), loc)
+    # defaults: a plain call must be admissible and must not overwrite (a re-run with defaults resumes) ----------
+    defaults = astq.param_defaults(fn)
+    dvals = {}
+    for k in keys:
+        if k[0] == "flag" and isinstance(defaults.get(k[1]), ast.Constant) and isinstance(defaults[k[1]].value, bool):
+            dvals[k] = defaults[k[1]].value
+    flag_keys = [k for k in keys if k[0] == "flag"]
+    if flag_keys and all(k in dvals for k in P.atoms(adm)):
+        ctx.check(P.evaluate(adm, dvals) if P.atoms(adm) else True, "R1", tag + ":defaults-admissible",
+                  "the default options satisfy the method's own precondition",
+                  "calling %s() with its default options is rejected by its own precondition (%s)" % (method, P.show(adm, atom_name)), ctx.loc(mod, fn))
+    for kind in need:
+        ow = FLAGS[kind][1]
+        if ("flag", ow) in dvals:
+            ctx.check(dvals[("flag", ow)] is False, "R1", "%s:default:%s" % (tag, ow), "overwriting is off by default: a repeated default run resumes",
+                      "%s defaults to True: a repeated run with default options recomputes and overwrites every existing %s record"
+                      % (ow, kind), ctx.loc(mod, fn))
+    if not registry:
+        return cons
     # R5: every path registers (strategy, dataset) -----------------------------------------------------
     reg_ids = {n.id for _, n in registers}
     fit_ids = {n.id for _, n in fits}
@@ -1826,6 +1852,149 @@ def rule_default_features(ctx, repo):
         ctx.violation("R4", c, "for data columns %s and target 'target' the default features are %s, expected %s" % (cols, got, want), loc)
 
 
+def rule_store_sinks(ctx, repo):
+    """R3: what the existence checks and the stores rely on.
+    * RAMResults never claims that a record exists unless it consults its store (a constant True makes every fold be skipped);
+    * HDDResults.save_* really write to the key they register (to_csv(key) / strategy.save(key)) on every path;
+    * BaseStrategy.save dumps the strategy itself to the given path;
+    * the generated key, interpreted with real path-join semantics, lies under the results path and contains all four components."""
+    from ._c18_mini import Interp, PyRaise, Undecided as U
+    import posixpath
+    ram = repo.cls(RESULTS + ":RAMResults")
+    hdd = repo.cls(RESULTS + ":HDDResults")
+    for m in ("check_predictions_exist", "check_fitted_strategy_exists"):
+        h = repo.lookup_method(ram, m)
+        if h is None:
+            continue
+        fn = h[1]
+        c = "RAMResults.%s:never-claims-unstored" % m
+        rets = astq.returns(fn)
+        consts = [r.value.value for r in rets if isinstance(r.value, ast.Constant)]
+        reads_store = any(astq.is_self_attr(n) and n.attr == "results" for n in ast.walk(fn))
+        if rets and len(consts) == len(rets):
+            ctx.check(not any(v is True for v in consts), "R3", c, "answers False (in-memory results are always recomputed)",
+                      "answers True without looking at the store: every fold is skipped and no record is ever produced", ctx.loc(h[0].module, fn))
+        elif reads_store:
+            ctx.ok("R3", c, "consults self.results", ctx.loc(h[0].module, fn))
+        else:
+            ctx.undecided("R3", c, "return value not interpretable", ctx.loc(h[0].module, fn))
+    flow = Flow(repo)
+    for m, sink in (("save_predictions", "to_csv"), ("save_fitted_strategy", "save")):
+        h = repo.lookup_method(hdd, m)
+        if h is None:
+            continue
+        dcls, fn = h
+        c = "HDDResults.%s:writes-key" % m
+        sinks = []
+        for call in astq.calls(fn):
+            if isinstance(call.func, ast.Attribute) and call.func.attr == sink and not self_call(call):
+                args = list(call.args) + [k.value for k in call.keywords]
+                if any(mentions_key(repo, hdd, fn, S.resolve_at(fn, a, call)) for a in args):
+                    sinks.append(call)
+        g = CFG(fn)
+        ids = {g.node_of(x).id for x in sinks if g.node_of(x) is not None}
+        ctx.check(bool(ids) and g.must_pass(lambda n: n.id in ids), "R3", c, "writes the record to the generated key on every path (.%s(key))" % sink,
+                  "%s registers the record but does not write it to the generated key on every path (no .%s(<key>) call): the "
+                  "existence check keeps answering False / the record cannot be loaded" % (m, sink), ctx.loc(dcls.module, fn))
+    st = repo.cls(STRAT + ":BaseStrategy")
+    sv = st.methods.get("save")
+    if sv is not None:
+        c = "BaseStrategy.save:dumps-self-to-path"
+        params = astq.param_names(sv, skip_self=True)
+        dumps = [x for x in astq.calls(sv) if (repo.resolve_expr(st.module, x.func) or None) is not None
+                 and repo.resolve_expr(st.module, x.func).dotted in ("joblib.dump", "pickle.dump")]
+        ok = None
+        if len(dumps) == 1 and params:
+            a = list(dumps[0].args) + [None, None]
+            kw = {k.arg: k.value for k in dumps[0].keywords}
+            val = a[0] if a[0] is not None else kw.get("value")
+            fname = a[1] if a[1] is not None else kw.get("filename")
+            ok = isinstance(val, ast.Name) and val.id == "self" and isinstance(fname, ast.Name) and fname.id == params[0]
+        elif not dumps:
+            ok = False
+        ctx.check(ok, "R3", c, "dump(self, path)", "save(path) does not dump the strategy itself to the given path", ctx.loc(st.module, sv))
+    # the key as a path
+    h = repo.lookup_method(hdd, "_generate_key")
+    if h is not None:
+        kcls, keyfn = h
+        c = "HDDResults._generate_key:path"
+        toks = {"S": "«sname»", "D": "«dname»", "F": "«fold»", "P": "«part»"}
+        made = []
+        ext = {"os.path.join": lambda i, a, k, n: posixpath.join(*a), "os.path.exists": lambda i, a, k, n: False,
+               "os.makedirs": lambda i, a, k, n: made.append(a[0])}
+        me = _Instance(repo, hdd, {"_path": "/results", "path": "/results"})
+        kwargs = {p: toks[ROLE_OF_PARAM[p]] for p in astq.param_names(keyfn, skip_self=True) if p in ROLE_OF_PARAM}
+        try:
+            key = Interp(repo, ext).call_function(kcls.module, keyfn, [me], kwargs)
+        except U as e:
+            ctx.undecided("R3", c, str(e), ctx.loc(kcls.module, keyfn))
+            key = None
+        except PyRaise as e:
+            ctx.violation("R3", c, "_generate_key raises %s" % (e.exc,), ctx.loc(kcls.module, keyfn))
+            key = None
+        if key is not None:
+            missing = [ROLE_TEXT[r] for r, t in toks.items() if not isinstance(key, str) or t not in key]
+            under = isinstance(key, str) and key.startswith("/results/")
+            ctx.check(under and not missing, "R3", c, "key %s lies under the results path and names all four components" % key,
+                      "for results path /results the key is %r: %s" % (key, "; ".join(x for x in (
+                          "it does not lie under the results path" if not under else "",
+                          "it does not contain the %s (os.path.join drops everything before an absolute component)" % ", ".join(missing) if missing else "") if x)),
+                      ctx.loc(kcls.module, keyfn))
+            ctx.check(bool(made) and all(isinstance(d, str) and key.startswith(d.rstrip("/") + "/") for d in made) if isinstance(key, str) else None,
+                      "R3", c + ":directory", "the key's directory is created when missing",
+                      "the directory of the key is not created when it does not exist (created: %s)" % made, ctx.loc(kcls.module, keyfn))
+
+
+def rule_single_split(ctx, repo):
+    """R4: SingleSplit.split is interpreted: the positions handed to train_test_split are 0..n_rows-1 of the data, the
+    configured options are forwarded unchanged, and exactly that one (train, test) pair is yielded."""
+    from ._c18_mini import Interp, PyRaise, Undecided as U
+    from . import _c18_models as M
+    cls = repo.cls(SPLITMOD + ":SingleSplit")
+    fn = cls.methods.get("split")
+    init = cls.methods.get("__init__")
+    tag = "SingleSplit.split"
+    if fn is None or init is None:
+        ctx.undecided("R4", tag, "method missing", ctx.loc(cls.module, cls.node))
+        return
+    loc = ctx.loc(cls.module, fn)
+    opts = {"test_size": "«test_size»", "train_size": "«train_size»", "random_state": "«random_state»", "shuffle": "«shuffle»",
+            "stratify": "«stratify»"}
+    me = _Instance(repo, cls, {})
+    seen = []
+
+    def tts(interp, args, kwargs, node):
+        seen.append((args, kwargs))
+        return ("«train»", "«test»")
+
+    ext = dict(M.make_externals(M.VFS()))
+    ext["sklearn.model_selection.train_test_split"] = tts
+    ext["sklearn.model_selection._split.train_test_split"] = tts
+    data = M.FrameV({"a": list("12345"), "b": list("12345"), "target": list("12345")})  # 5 rows, 3 columns
+    try:
+        it = Interp(repo, ext, M.to_float, M.str_hook)
+        it.call_function(cls.module, init, [me], {k: v for k, v in opts.items() if k in astq.param_names(init, skip_self=True)})
+        out = it.call_function(cls.module, fn, [me, data])
+    except U as e:
+        ctx.undecided("R4", tag, str(e), loc)
+        return
+    except PyRaise as e:
+        ctx.violation("R4", tag, "raises %s on a 5-row frame" % (e.exc,), loc)
+        return
+    ctx.check(isinstance(out, list) and out == [("«train»", "«test»")] and len(seen) == 1, "R4", tag + ":one-fold",
+              "yields exactly the one (train, test) pair train_test_split returns",
+              "does not yield exactly the (train, test) pair of one train_test_split call: %r" % (out,), loc)
+    if len(seen) == 1:
+        args, kwargs = seen[0]
+        idx = args[0] if args else None
+        ctx.check(isinstance(idx, M.ArrV) and idx.data == list(range(5)) and len(args) == 1, "R4", tag + ":positions",
+                  "splits the positions 0..n_rows-1 of the data",
+                  "for a frame of 5 rows and 3 columns the positions handed to train_test_split are %r, expected 0..4" % (getattr(idx, "data", idx),), loc)
+        wrong = sorted(k for k, v in opts.items() if kwargs.get(k) != v)
+        ctx.check(not wrong, "R4", tag + ":options", "test_size / train_size / random_state / shuffle / stratify forwarded as configured",
+                  "the configured %s is not what train_test_split receives (%s)" % (", ".join(wrong), ", ".join("%s=%r" % (k, kwargs.get(k)) for k in wrong)), loc)
+
+
 # ------------------------------------------------------------------- contracts the orchestration rules rely on
 LOSSY_CALLS = {"os.path.splitext", "os.path.basename", "os.path.dirname", "os.path.normpath", "os.path.split", "hash", "len", "repr"}
 
@@ -2029,7 +2198,7 @@ def run(ctx):
     else:
         cons = analyse_fit_predict(ctx, repo, flow, roles)
         consumer_R4(ctx, repo, cons)
-        fit_cons = Consumer(repo, repo.cls(ORCH + ":Orchestrator"), "fit", roles)
+        fit_cons = analyse_fit_predict(ctx, repo, flow, roles, method="fit", FLAGS=FIT_FLAGS, registry=False)
         consumer_R4(ctx, repo, fit_cons)
         rule_R5_rest(ctx, repo, flow, cons, reg_pos)
     rule_arity(ctx, repo, roles)
@@ -2038,6 +2207,8 @@ def run(ctx):
     rule_feature_selection(ctx, repo)
     rule_default_features(ctx, repo)
     rule_identity_contracts(ctx, repo)
+    rule_store_sinks(ctx, repo)
+    rule_single_split(ctx, repo)
     rule_no_deletion(ctx, repo)
     ctx.floor("R1", 2)
     ctx.floor("R2", 11)
